@@ -119,8 +119,50 @@ def cmd_run(name, checks):
     save_meta(name, m)
 
 
+def cmd_run_scratch(name, checks):
+    """Same as `run`, but in a private copy of /repo + /verif (/root/scratch/seedrun), so that /repo
+    stays untouched (needed while a background run is using /repo). Outcome stored under the same keys."""
+    sys.path.insert(0, os.path.dirname(__file__))
+    import mutsweep
+    w = "/root/scratch/mut/wseed"
+    if not os.path.exists(w + "/verif/check") or "--fresh" in checks:
+        checks = [c for c in checks if c != "--fresh"]
+        mutsweep.setup_worker("seed")
+    m = load_meta(name)
+    d = os.path.join(ROOT, name)
+    key = ""
+    if "--key" in checks:
+        i = checks.index("--key")
+        key = "_" + checks[i + 1]
+        checks = checks[:i] + checks[i + 2:]
+    if not checks:
+        checks = [m["property"]]
+    if checks == ["all"]:
+        checks = ["C%02d" % i for i in range(1, 21)]
+    res = m.get("checks" + key, {})
+    try:
+        ap = sh(f"git apply {os.path.join(d, 'patch.diff')}", cwd=w + "/repo")
+        if ap.returncode:
+            raise SystemExit("patch does not apply: " + ap.stderr)
+        for c in checks:
+            t0 = time.time()
+            r = sh("./check %s --tier quick" % c, cwd=w + "/verif")
+            viol = [l for l in r.stdout.splitlines() if l.startswith("VIOLATION")]
+            why = [l for l in r.stdout.splitlines() if l.startswith("failure in") or l.startswith("regress case")]
+            res[c] = {"exit": r.returncode, "violation": bool(viol), "wall_s": round(time.time() - t0, 1), "reason": (why[0][:400] if why else r.stdout[-300:] if r.returncode else "")}
+            print(name, c, "exit", r.returncode, (why[0][:160] if why else ""))
+    finally:
+        sh("git checkout -q -- .", cwd=w + "/repo")
+    m["checks" + key] = res
+    m["caught_by" + key] = sorted(c for c, v in res.items() if v["exit"] == 1 and v["violation"])
+    m["ran_in"] = "private copy of /repo HEAD and of /verif (tools/seeded.py run-scratch): git apply patch.diff; ./check <id> --tier quick; git checkout -- ."
+    save_meta(name, m)
+
+
 def main():
     a = sys.argv[1:]
+    if a[0] == "run-scratch":
+        return cmd_run_scratch(a[1], a[2:])
     if a[0] == "import":
         cmd_import(a[1], a[2], a[3])
     elif a[0] == "verify":
